@@ -2,7 +2,7 @@
 
 REGISTRY = {
     "C01": ("c01_aead_channel", "plain"),
-    "C05": ("c05_key_invariants", "plain"),
+    "C05": ("c05_key_invariants", "alloc"),
     "C09": ("c09_segmentation", "plain"),
     "C10": ("c10_lifecycle", "plain"),
     "C11": ("c11_counters", "plain"),
